@@ -1318,7 +1318,7 @@ def broken_theorems(run):
 
 
 def case_replay(k):
-    d = {"compiler": k["compiler"], "filters": k["filters"], "kind": k.get("kind")}
+    d = {"compiler": k["compiler"], "filters": k["filters"], "case_kind": k.get("kind")}
     key, v = text_field(k["text"])
     d[key] = v
     d["gt"] = k.get("gt")
